@@ -126,6 +126,46 @@ func SingleStore(addr ssa.Value) ssa.Value {
 	return st[0].Val
 }
 
+// ReachingStore returns the value the load of a local cell sees when exactly one store of the cell reaches it
+// along a straight line: the cell is a local of the loading function (a named result or a variable captured by
+// closures that only read it), every store to it is in that function, and walking back from the load through
+// single-predecessor blocks the first store met is the one returned.  nil when the walk meets a join first.
+func ReachingStore(load *ssa.UnOp) ssa.Value {
+	if load.Op != token.MUL {
+		return nil
+	}
+	al, ok := load.X.(*ssa.Alloc)
+	if !ok || al.Parent() != load.Parent() {
+		return nil
+	}
+	stores, unknown := cellStores(al, 0)
+	if unknown || len(stores) == 0 {
+		return nil
+	}
+	for _, st := range stores {
+		if st.Parent() != load.Parent() {
+			return nil
+		}
+	}
+	// a call of a closure (or a deferred/go closure run) between store and load cannot write: all stores are in
+	// this function
+	b := load.Block()
+	idx := InstrIndex(load)
+	for steps := 0; steps < 16; steps++ {
+		for i := idx - 1; i >= 0; i-- {
+			if st, ok := b.Instrs[i].(*ssa.Store); ok && st.Addr == ssa.Value(al) {
+				return st.Val
+			}
+		}
+		if len(b.Preds) != 1 {
+			return nil
+		}
+		b = b.Preds[0]
+		idx = len(b.Instrs)
+	}
+	return nil
+}
+
 // CellStores exposes all stores to a cell (nil, true when they cannot be enumerated).
 func CellStores(addr ssa.Value) ([]*ssa.Store, bool) { return cellStores(addr, 0) }
 
@@ -142,6 +182,11 @@ func origin(v ssa.Value, seen map[ssa.Value]bool) ssa.Value {
 		case *ssa.UnOp:
 			if x.Op == token.MUL {
 				if st := SingleStore(x.X); st != nil {
+					v = st
+					continue
+				}
+				if st := ReachingStore(x); st != nil && !seen[st] {
+					seen[st] = true
 					v = st
 					continue
 				}
@@ -213,6 +258,14 @@ func Origins(v ssa.Value) []ssa.Value {
 // CallOf returns the call instruction a value is (an element of) the result of.
 func CallOf(v ssa.Value) (*ssa.Call, int) {
 	v = Strip(v)
+	// the load of a local cell (named result, captured variable) stands for the value the reaching store put there
+	if u, ok := v.(*ssa.UnOp); ok && u.Op == token.MUL {
+		if _, isAlloc := u.X.(*ssa.Alloc); isAlloc {
+			if o := Origin(u); o != ssa.Value(u) {
+				v = Strip(o)
+			}
+		}
+	}
 	switch x := v.(type) {
 	case *ssa.Call:
 		return x, -1
